@@ -63,9 +63,43 @@ void k_one_sort(Ctx& c)
         }
     }
 }
+// the same through etl::reverse_iterator<El*> (random access category passed through; bubble/exchange sort use its operator<)
+template <int F>
+void k_one_sort_rev(Ctx& c)
+{
+    constexpr int f     = F;
+    std::size_t const n = c.a.size();
+    Seq const& m        = c.a;
+    Seq const store(m.rbegin(), m.rend()); // seen through reverse iterators this is c.a again
+    using RIt = etl::reverse_iterator<El*>;
+    for (Pres pr : pres_for<KPtr>(n)) {
+        for (int cm = -1; cm <= 2; ++cm) {
+            Comp cmp{cm < 0 ? 0 : cm};
+            char op[64];
+            std::snprintf(op, sizeof op, "%s(f,l%s)%s", sort_name(f), cm < 0 ? "" : ",c", comp_name(cm));
+            Trial t(c, "reverse_iterator<ptr>", op, pr, is_sorted_keys(m, cm) ? "already-sorted" : "unsorted", vf::mix(f, cm + 1), "-");
+            Range<El> r(store, pr, true);
+            t.call([&] { call_sort<F>(RIt{r.hi}, RIt{r.lo}, cm); });
+            Seq got = r.get();
+            std::reverse(got.begin(), got.end());
+            if (t.permutation("range", got, m)) {
+                if (f == S_stable) {
+                    Seq exp = m;
+                    std::stable_sort(exp.begin(), exp.end(), cmp);
+                    t.seq("range", got, exp);
+                } else {
+                    t.require("range:not-sorted", is_sorted_keys(got, cm), show(got), "sorted w.r.t. the comparator");
+                }
+            }
+            t.guards(r);
+            t.done();
+        }
+    }
+}
 template <int F>
 void t_sort_fn(Ctx& c)
 {
+    k_one_sort_rev<F>(c);
     k_one_sort<KPtr, F>(c);
     k_one_sort<KRa, F>(c);
 }
